@@ -39,7 +39,7 @@ class Clock:
         os.stat = self.real_stat
 
 
-FORMS = ["etag", "weak", "list_last", "list_first_weak", "star", "date", "both", "stale_etag_and_date"]
+FORMS = ["etag", "weak", "list_last", "list_first_weak", "star", "date", "both", "stale_etag_and_date", "two_lines_first"]
 
 
 def request(app, iface, path, headers):
@@ -66,6 +66,9 @@ def validators(form, resp_headers, stale_etag='"0000"'):
         return [("If-None-Match", '"x" , W/' + et + ' ,"z"')]
     if form == "star":
         return [("If-None-Match", "*")]
+    # the same list sent as two header lines (ASGI servers deliver them as two pairs, WSGI servers join them)
+    if form == "two_lines_first":
+        return [("If-None-Match", et), ("If-None-Match", '"other"')]
     if form == "date":
         return [("If-Modified-Since", lm)]
     if form == "both":
@@ -197,7 +200,7 @@ def bounded(tier, seed):
             h = [("get",)] + ([m] if m else []) + [("cond", 0, form)]
             hists.append(h)
     for m1, m2 in itertools.product(mods, repeat=2):
-        for form in (forms if tier == "thorough" else ["etag", "date", "both", "list_last"]):
+        for form in (forms if tier == "thorough" else ["etag", "date", "both", "list_last", "two_lines_first"]):
             hists.append([("get",), m1, ("get",), m2, ("cond", 0, form), ("cond", 1, form)])
     for _ in range(40 if tier == "quick" else 600):
         h = [("get",)]
